@@ -5,7 +5,7 @@
 //! scores are compared against the textbook formula evaluated in f64 with the a-priori error bound of
 //! `bound.rs`.
 
-use crate::bound::{agrees, Ctx, B, U32, U64};
+use crate::bound::{agrees, near, Ctx, B, U32, U64};
 use linfa::dataset::{AsMultiTargets, AsSingleTargets, DatasetBase};
 use linfa::metrics::{MultiTargetRegression, SingleTargetRegression};
 use linfa::Float;
@@ -315,7 +315,7 @@ fn run<F: Float>(c: &RegCase, ctx: Ctx, obs: &mut Obs) {
                 let wants = [o.mae, o.mse, o.msle, o.mape.unwrap_or(B { v: f64::NAN, e: f64::INFINITY }), o.r2];
                 for (i, w) in [MAE, MSE, MSLE, MAPE, R2].into_iter().zip(wants) {
                     if w.judgeable() {
-                        obs.ensure((g[i] - got[i]).abs() <= 2.0 * w.tol(ctx), "perm:reg-sums", || {
+                        obs.ensure(near(g[i], got[i], 2.0 * w.tol(ctx)), "perm:reg-sums", || {
                             format!("{} changed under a common permutation: {} vs {}", NAMES[i], g[i], got[i])
                         });
                     }
@@ -323,7 +323,7 @@ fn run<F: Float>(c: &RegCase, ctx: Ctx, obs: &mut Obs) {
                 // explained variance: same verdict logic on the permuted data (the reference is permutation-free)
                 let tol = o.ev.tol(ctx).max(o.ev_pinned.tol(ctx));
                 if tol.is_finite() {
-                    obs.ensure((g[EV] - got[EV]).abs() <= 2.0 * tol, "perm:reg-sums", || {
+                    obs.ensure(near(g[EV], got[EV], 2.0 * tol), "perm:reg-sums", || {
                         format!("explained_variance changed under a common permutation: {} vs {}", g[EV], got[EV])
                     });
                 }
@@ -343,7 +343,7 @@ fn run<F: Float>(c: &RegCase, ctx: Ctx, obs: &mut Obs) {
                     if os.ev.judgeable() {
                         if agrees(v, os.ev, ctx) {
                             if ev_ok && exact && o.ev.judgeable() {
-                                obs.ensure((v - got[EV]).abs() <= o.ev.tol(ctx) + os.ev.tol(ctx), "ev:shift-variant", || {
+                                obs.ensure(near(v, got[EV], o.ev.tol(ctx) + os.ev.tol(ctx)), "ev:shift-variant", || {
                                     format!("explained_variance {} became {} after adding {} to the predictions", got[EV], v, c.shift)
                                 });
                             }
